@@ -214,7 +214,7 @@ void run_coord(RunCfg const& c, std::uint64_t h, T& x, T& y, long& bin)
     else if (o == 2 && c.two_d) { y = c.ay.min - c.ys; bin = -1; }
 }
 
-struct RunAcc { std::vector<ExactSum> s, s2, sa; std::vector<std::uint64_t> n; ExactSum inside; std::uint64_t calls = 0, boundary = 0, outside = 0; };
+struct RunAcc { std::vector<ExactSum> s, s2, sa; std::vector<std::uint64_t> n; ExactSum inside; std::uint64_t calls = 0, boundary = 0, outside = 0, overflowing = 0; };
 
 T run_value(RunCfg const& c, RunAcc* acc, CallEv<T>& e, Access<T>& a)
 {
@@ -226,8 +226,15 @@ T run_value(RunCfg const& c, RunAcc* acc, CallEv<T>& e, Access<T>& a)
     long bin;
     run_coord(c, h, x, y, bin);
     ++acc->calls;
-    if (c.only_bin >= 0) return bin == c.only_bin ? T((LD)base / c.area) : T();
     T w = a.weight();
+    if (c.only_bin >= 0)
+    {
+        // same projected value as the original run (a value whose product with the weight overflows was dropped there)
+        if (w > T(2.5) && ((h >> 12) % 16) == 0) return T();
+        return bin == c.only_bin ? T((LD)base / c.area) : T();
+    }
+    // a finite value whose product with the weight overflows must be dropped like any non-finite contribution
+    if (w > T(2.5) && ((h >> 12) % 16) == 0) { base = std::numeric_limits<T>::max() / T(2); ++acc->overflowing; }
     if (c.two_d) a.add(0, x, y, base); else a.add(0, x, base);
     T vw = base * w;
     if (bin >= 0 && std::isfinite(vw))
@@ -236,7 +243,7 @@ T run_value(RunCfg const& c, RunAcc* acc, CallEv<T>& e, Access<T>& a)
         acc->inside.add(vw);
     }
     if (bin < 0) ++acc->outside;
-    return ((h >> 4) % 3 == 0) ? T() : base * T(0.5);   // the integral itself is something else than the projected values
+    return ((h >> 4) % 3 == 0) ? T() : T(0.375);   // the integral itself is something else than the projected values
 }
 
 template <typename Chk> struct FirstOnly
@@ -333,6 +340,7 @@ void run_case(Rng& rng)
         if (!close_abs<T>(r.variance(), res2.variance(), 8 * (acc.n[bsel] + 32), vscale)) viol("differential:bin-variance", J(info).u("bin", bsel).f("bin_variance", r.variance()).f("integral_variance", res2.variance()));
         if (res2.non_zero_calls() != r.finite_calls() && integ != 2) viol("differential:counts", J(info).u("bin", r.finite_calls()).u("integral", res2.non_zero_calls()));
     }
+    count("adds_with_finite_value_but_overflowing_product", acc.overflowing);
     if (acc.outside > 0) nontrivial(hash_str(info.str()));
     sample(J(info).s("kind", "run"), 5);
 }
